@@ -7,8 +7,7 @@ Property theorems only.  Model: `OomdModel.Watcher` – the watcher thread and t
 `FsDropInService` / `DropInServiceAdaptor` as a transition system; a schedule is an arbitrary `List Step`, so
 every theorem below that quantifies over `steps` holds for **every interleaving** of the two threads, every
 number of events, every file name and every result of loading a file.  The model is of the code after
-`fixes/C14-invalid-rewrite.patch` and the `std::stoi` repair (`fixes/C12-ruleset-delay` alias
-`fixes/C14-stoi-escape.patch`); `Fixes.none` is the pinned tree, for which the two counterexamples at the end
+`fixes/C14-invalid-rewrite.patch` and the `std::stoi` repair `fixes/C12-ruleset-delay.patch`; `Fixes.none` is the pinned tree, for which the two counterexamples at the end
 are proved.
 
 What is **not** proved here (observed by `h_watcher` with real inotify under ThreadSanitizer instead):
